@@ -135,6 +135,14 @@ For entries `u` before `t`: `u` is not a suffix of `t`, and `u` does not end in 
 changes nothing; `"testing"` beside `"updates-testing"` breaks it in either order.) -/
 theorem C14_types_suffix_free : FirstMatchOK Gen.RELEASE_TYPES := by decide +kernel
 
+/-- obligation on the generated table and patterns: each of the nine DOCUMENTED release types is in the table the
+parser consults and is accepted by `create_release_id`, so `C14_roundtrip_partial` covers all nine (in particular
+the dashed `updates-testing`, which only parses back because it is in the table, and `e4s` with its digit).
+The converse inclusion is deliberately not an obligation: an extra table entry is harmless for this property as long
+as `C14_types_suffix_free` holds, and the harness generates from the union of both lists. -/
+theorem C14_types_documented :
+    ∀ t ∈ Spec.knownTypes, t ∈ Gen.RELEASE_TYPES ∧ isValidReleaseType t = true := by decide +kernel
+
 /-- Reordering the table is harmless as long as no entry is a suffix of a different entry (true of the present
 table, see the example below): the parser — here with the table as a parameter, `parsePartWith Gen.RELEASE_TYPES`
 being `parseReleaseIdPart` by `rfl` — gives the same result on EVERY identifier for every permutation. -/
@@ -159,6 +167,25 @@ theorem C14_roundtrip_partial (r : Rel) (bp : Option Rel)
     (hr : r.Valid) (hbp : ∀ b, bp = some b → b.Valid) :
     createRel r bp >>= parseReleaseId = .ok (r, bp) :=
   roundtrip C14_types_suffix_free r bp hr hbp
+
+/-- hence: every documented type, release and base product alike, with plain parts -/
+theorem C14_roundtrip_all_documented_types :
+    ∀ t ∈ Spec.knownTypes, ∀ u ∈ Spec.knownTypes,
+      createRel ⟨"f".toList, "23".toList, t⟩ (some ⟨"rhel".toList, "7.1".toList, u⟩) >>= parseReleaseId
+        = .ok (⟨"f".toList, "23".toList, t⟩, some ⟨"rhel".toList, "7.1".toList, u⟩) := by
+  intro t ht u hu
+  have h1 := C14_types_documented t ht
+  have h2 := C14_types_documented u hu
+  have a1 : isValidReleaseShort "f".toList = true := by decide +kernel
+  have a2 : isValidReleaseVersion "23".toList = true := by decide +kernel
+  have a3 : '-' ∉ "23".toList ∧ '@' ∉ "23".toList ∧ '-' ∉ "f".toList := by decide
+  have b1 : isValidReleaseShort "rhel".toList = true := by decide +kernel
+  have b2 : isValidReleaseVersion "7.1".toList = true := by decide +kernel
+  have b3 : '-' ∉ "7.1".toList ∧ '@' ∉ "7.1".toList ∧ '-' ∉ "rhel".toList := by decide
+  refine C14_roundtrip_partial _ _ ⟨a1, a2, h1.2, h1.1, a3.1, a3.2.1, fun _ => a3.2.2⟩ ?_
+  intro b hb
+  cases hb
+  exact ⟨b1, b2, h2.2, h2.1, b3.1, b3.2.1, fun _ => b3.2.2⟩
 
 /-- on the domain of the round trip `create_release_id` is injective (it has a left inverse there) -/
 theorem C14_create_injective (r r' : Rel) (bp bp' : Option Rel)
